@@ -22,6 +22,10 @@ class C03(SessionCheck):
                                               'profile': SG.PROFILES[(i * 5) % len(SG.PROFILES)], 'threads': rng.randint(2, 5),
                                               'per_thread': rng.randint(2, 5), 'window': rng.randint(1, 5), 'notifs': rng.choice([0, 0, 3]),
                                               'seg': rng.choice(['random', 'whole', 'ones']), 'seed': rng.randrange(1 << 30)}})
+        for i in range(3 if tier == 'quick' else 30):
+            out.append({'kind': 'e2e', 'sc': {'transport': ['unix', 'ssh', 'tls'][i % 3] if tier == 'thorough' else 'unix', 'profile': 'default',
+                                              'threads': 3, 'per_thread': 1, 'window': 1, 'notifs': 0, 'seg': 'whole', 'first_race': True,
+                                              'seed': rng.randrange(1 << 30)}})
         return out
 
     def oracle_e2e(self, case, io):
